@@ -895,6 +895,32 @@ class Layout:
                         raise AnalysisError("pygen: regex %s is not a constant" % t)
                     self.re[t[5:]] = re.compile(pat)
                     self.re_src[t[5:]] = pat
+        # an optional "which keyword may continue which statement" table used by _is_unindentor
+        self.continuations = None
+        self.unindentor_shape = "any"
+        for n in walk_func(init):
+            if isinstance(n, ast.Assign) and isinstance(n.value, ast.Dict) and dotted(n.targets[0]) and dotted(n.targets[0]).startswith("self."):
+                try:
+                    tbl = {const(k): {const(e) for e in v.elts} for k, v in zip(n.value.keys, n.value.values) if isinstance(v, (ast.Tuple, ast.List, ast.Set))}
+                except Exception:
+                    tbl = None
+                if tbl and all(isinstance(k, str) for k in tbl) and len(tbl) == len(n.value.keys):
+                    attr = dotted(n.targets[0])[5:]
+                    iu = db.func("pygen.PythonPrinter._is_unindentor")
+                    if any(isinstance(x, ast.Attribute) and x.attr == attr for x in ast.walk(iu)):
+                        self.continuations = tbl
+                        self.unindentor_shape = "table:" + attr
+        iu = db.func("pygen.PythonPrinter._is_unindentor")
+        rets = [r for r in walk_func(iu) if isinstance(r, ast.Return)]
+        last = rets[-1] if rets else None
+        # the modelled decision: "some unindentor keyword matches" (bool(match)), optionally
+        # restricted by the continuation table
+        self.unindentor_model_ok = last is not None and (
+            (isinstance(last.value, ast.Call) and dotted(last.value.func) == "bool" and len(last.value.args) == 1)
+            or (self.continuations is not None and isinstance(last.value, ast.Compare) and isinstance(last.value.ops[0], ast.In))
+            or (isinstance(last.value, ast.Compare) and isinstance(last.value.ops[0], (ast.IsNot,)))
+            or (isinstance(last.value, ast.Name))
+        )
         missing = [n for n in self.NAMES if n not in self.re]
         if missing:
             raise AnalysisError("pygen.PythonPrinter.__init__: regex tables %s not found" % missing)
@@ -962,7 +988,12 @@ class Layout:
             return False
         if st["detail"][-1] is None:
             return False
-        return bool(self.re["_re_unindentor"].match(line))
+        m = self.re["_re_unindentor"].match(line)
+        if not m:
+            return False
+        if self.continuations is not None:
+            return m.group(1) in self.continuations.get(st["detail"][-1], ())
+        return True
 
     def _run(self, events, res, st, user_header, star_unroll, children):
         for ev in events:
